@@ -20,7 +20,8 @@ ID = "C08"
 LEVEL = "exploration"
 RULE = ("Hypothesis cases: pool of 2-6 nodes, expression of 1-2 paths (0-3 links through child/children/table/group with "
         "'.' or ':', ending in value / a link / * / +metadata / children.items), given as DSL text or via the expression API, "
-        "history of <=25 graph mutations; after every step every pool object is probed; non-trivial = history containing a "
+        "history of <=25 graph mutations (incl. multi-argument set operations, instance link traits added before or after "
+        "registration); after every step every pool object is probed; non-trivial = history containing a "
         "detach of a previously reachable object, a duplicate insertion/removal, an equal-container reassignment, a default "
         "materialisation, an added trait or a cycle through the root; distinct by digest")
 ASSUMPTIONS = ["remove_trait is excluded (documented to emit no event)",
